@@ -16,6 +16,13 @@ Correspondence.  For every generated (schema version, document):
      XMLResource, lxml element/tree, ElementTree element/tree) and compared with the prediction.
   The command line is run in sub-processes for error totals 0, 1, 255, 256, 257, 512, sums over
   several files, unreadable and malformed files.
+  4. schema family V (harness/lib_c04v.py): value constraints (default / fixed) of attributes and simple contents
+     that the instance OMITS, of the types whose decoding has a document-level effect (IDREF, IDREFS, ID in XSD 1.1,
+     QName) — on the root, on children, nested, through xsi:type, in simple-content extensions — x use_defaults
+     on / off.  For these documents the attribute groups of the built schema and the parsed document are sent to
+     the Lean model Model/AttrDefaults.lean, whose events (proved to be: the decoded IDREFs, explicit or supplied
+     by a value constraint, that no decoded ID defines, …) are compared with the events of `iter_errors` AND with
+     the events of `iter_decode`.
 
 Property evaluation on the real code (independent of Lean): all verdicts of a case are equal,
 strict raises the first lax error, lax/skip never raise, data of valid documents are equal for all
@@ -37,22 +44,31 @@ from typing import Any, Callable, Optional
 
 from harness.core import Ctx, Driver, REPO, VERIF
 from harness import lib_c04gen as G
+from harness import lib_c04v as GV
 
 PROPS = 'XsVerif.Props.C04'
 AUDIT = 'XsVerif.Audit.C04'
 LEAN_TARGETS = ['XsVerif.Props.C04', 'drv_c04']
-LEANCHECK = ['XsVerif.Model.Modes', 'XsVerif.Lemmas.Modes', 'XsVerif.Props.C04']
+LEANCHECK = ['XsVerif.Model.Modes', 'XsVerif.Lemmas.Modes', 'XsVerif.Model.AttrDefaults', 'XsVerif.Lemmas.AttrDefaults',
+             'XsVerif.Props.C04']
 RULE = ('a case is one (XSD version, schema family, generated document); documents are valid instances damaged by '
         '0-5 faults drawn from 24 fault classes (content model, datatypes/facets, attribute uses, xsi:type / '
-        'nil / abstract / substitution, key/keyref/unique, ID/IDREF, unknown root name / namespace, XSD 1.1 assertion); every case is '
+        'nil / abstract / substitution, key/keyref/unique, ID/IDREF, unknown root name / namespace, XSD 1.1 assertion); '
+        'family V: valid instances of a schema whose attributes / simple contents carry default or fixed values of '
+        'IDREF / IDREFS / ID (1.1) / QName type, each written or OMITTED by the instance, damaged by 0-3 of 8 fault '
+        'classes (target of an omitted constrained IDREF removed, explicit dangling IDREF, prefix of a defaulted QName '
+        'unbound, duplicate ID, duplicated defaulted ID, wrong fixed value, missing required, unknown attribute); a '
+        'share of all cases is repeated with use_defaults=False on every entry point; every case is '
         'run through all entry points x modes x source kinds; non-trivial = the document is invalid, or valid with '
-        'more than 3 decoded items; distinct by canonical JSON of (version, family, XML text)')
+        'more than 3 decoded items; distinct by canonical JSON of (version, family, XML text, path, use_defaults)')
 TRUSTED = [
     'the script of a run is obtained by wrapping ValidationContext.raise_or_collect and by observing the items of '
     'the lax generators; whether an error is yielded by the generator itself (direct) is read from the caller frame',
     'source-kind independence and the equality of the error events of validation and decoding are established by '
     'execution (all source kinds / both generators are run for every case), not by proof',
     'errors are identified by (class, location path with prefixes removed, reason text with prefixes removed)',
+    'family V: the request of the attribute model is built by introspection (attribute groups of the built schema, '
+    'document parsed by lxml); real errors are mapped to the event alphabet of the model by their reason text',
 ]
 ASSUMPTIONS = [
     'fully loaded (non-lazy) resources, no max_depth / hooks arguments (lazy resources are property C06); the path '
@@ -61,6 +77,9 @@ ASSUMPTIONS = [
     'skipped by iter_errors and reported by iter_decode — both outside the statement of the property)',
     'ElementTree element/tree sources only for documents without prefix-dependent values (QName content, xsi:type)',
     'the component-level API is compared on documents without ID/IDREF faults (it does not enable identity checks)',
+    'attribute model (family V): no attribute wildcards, values whitespace-normalised and lexically valid, ID-typed '
+    'values in attributes only, all namespace declarations on the root element (checked per document; documents '
+    'outside are counted as V:model-skip and still go through the entry-point comparison)',
 ]
 
 FINDINGS_FILES = [VERIF / 'notes' / 'findings' / 'C04.json', VERIF / 'notes' / 'findings' / 'C11.json']
@@ -395,11 +414,13 @@ def outcome(fn: Callable[[], Any]) -> Any:
         return {'exc': type(e).__name__, 'msg': str(e)[:200]}
 
 
-def entry_points(schema: Any, canon: Callable[[Any], Any], path: Optional[str] = None) -> dict[str, Callable[[Any], Any]]:
+def entry_points(schema: Any, canon: Callable[[Any], Any], path: Optional[str] = None,
+                 extra: Optional[dict] = None) -> dict[str, Callable[[Any], Any]]:
     import xmlschema
     from xmlschema import XMLSchemaValidationError
     cls = type(schema)
     kw: dict[str, Any] = {'path': path} if path else {}
+    kw.update(extra or {})
 
     def gen_items(g: Any) -> Any:
         items: list = []
@@ -507,9 +528,9 @@ class Env:
         self.tmp = Path(tempfile.mkdtemp(prefix='verif-c04-'))
         self.schemas: dict = {}
         self.xsd_paths: dict = {}
-        for fam in 'TN':
+        for fam in 'TNV':
             for v11 in (False, True):
-                text = G.xsd_text(fam, v11)
+                text = GV.xsd_text(v11) if fam == 'V' else G.xsd_text(fam, v11)
                 p = self.tmp / ('schema_%s_%s.xsd' % (fam, '11' if v11 else '10'))
                 p.write_text(text)
                 self.xsd_paths[fam, v11] = p
@@ -530,7 +551,7 @@ def canon_for(case: dict) -> Callable[[Any], Any]:
 
 
 def public_case(case: dict) -> dict:
-    return {k: case[k] for k in ('v', 'family', 'style', 'xml', 'faults', 'prefix_dependent', 'path') if k in case}
+    return {k: case[k] for k in ('v', 'family', 'style', 'xml', 'faults', 'prefix_dependent', 'path', 'ud', 'lite') if k in case}
 
 
 def run_case(env: Env, case: dict, kinds: list[str], reqs: Optional[list], pend: Optional[list]) -> None:
@@ -543,18 +564,24 @@ def run_case(env: Env, case: dict, kinds: list[str], reqs: Optional[list], pend:
     env.n += 1
     src = Sources(case['xml'], env.tmp, 'doc%d' % env.n)
     path = case.get('path')
-    eps = entry_points(schema, canon, path)
+    ud = case.get('ud', True)
+    xkw: dict[str, Any] = {} if ud else {'use_defaults': False}
+    eps = entry_points(schema, canon, path, xkw)
     ids = Ids()
     pkw: dict[str, Any] = {'path': path} if path else {}
+    pkw.update(xkw)
 
     # 1. record the two lax scripts (text source)
     scripts = None
+    vc_events = None
     try:
         log_v = env.rec.record(lambda: schema.iter_errors(case['xml'], **pkw))
         sv, an_v = build_script(log_v, ids, canon)
         log_d = env.rec.record(lambda: schema.iter_decode(case['xml'], validation='lax', **pkw))
         sd, an_d = build_script(log_d, ids, canon)
         scripts = (sv, sd, an_v + an_d)
+        vc_events = tuple([x for x in (GV.event_of(ev[3].reason) for ev in lg if ev[0] == 'call') if x]
+                          for lg in (log_v, log_d))
     except RecursionError:
         raise
     except Exception as e:  # a lax run raised: property failure unless it is a listed finding
@@ -650,8 +677,14 @@ def run_case(env: Env, case: dict, kinds: list[str], reqs: Optional[list], pend:
     # statistics
     invalid = bool(verdicts) and not all(verdicts.values())
     nerr = len(outs['text'].get('iter_errors', {}).get('ok', []) or []) if isinstance(outs['text'].get('iter_errors'), dict) else 0
-    ctx.case({'v': case['v'], 'family': case['family'], 'xml': case['xml'], 'path': path}, invalid or len(case['xml']) > 400,
-             tag='%s/%s%s' % (case['v'], case['family'], '/path' if path else ''))
+    ctx.case({'v': case['v'], 'family': case['family'], 'xml': case['xml'], 'path': path, 'ud': ud},
+             invalid or len(case['xml']) > 400,
+             tag='%s/%s%s%s' % (case['v'], case['family'], '/path' if path else '', '' if ud else '/use_defaults=False'))
+    ctx.count('use_defaults:' + ('on' if ud else 'off'))
+    for t in case.get('omitted', []):
+        ctx.count('V:omitted:' + t)           # value constraint in effect: the instance omits the attribute / text
+    for t in case.get('explicit', []):
+        ctx.count('V:explicit:' + t)
     ctx.count('verdict:' + ('invalid' if invalid else 'valid'))
     ctx.count('errors:%s' % (nerr if nerr < 5 else '5+'))
     for f in case.get('faults', []):
@@ -665,18 +698,30 @@ def run_case(env: Env, case: dict, kinds: list[str], reqs: Optional[list], pend:
             ctx.mismatch('script reconstruction', pc, anomalies, None)
         reqs.append({'op': 'api', 'sv': sv, 'sd': sd})
         pend.append(('api', pc, ids, outs, kinds))
+        if case['family'] == 'V' and vc_events is not None:
+            try:
+                reqs.append(GV.model_request(schema, case['xml'], ud))
+                pend.append(('attrs', pc, None, vc_events, None))
+            except GV.Unsupported as e:
+                ctx.count('V:model-skip:' + str(e))
 
     # 5. component level (ValidationMixin) on an lxml element (keeps the prefix map)
     if not path and not any(f.startswith('ROOT') or f.startswith('ID ') for f in case.get('faults', [])):
-        component_case(env, case, schema, canon, reqs, pend)
+        component_case(env, case, schema, canon, reqs, pend, xkw)
 
 
-def component_case(env: Env, case: dict, schema: Any, canon: Callable, reqs: Optional[list], pend: Optional[list]) -> None:
+def component_case(env: Env, case: dict, schema: Any, canon: Callable, reqs: Optional[list], pend: Optional[list],
+                   xkw: Optional[dict] = None) -> None:
     import lxml.etree as LE
     from xml.etree import ElementTree as ET
     ctx = env.ctx
     pc = public_case(case)
-    tag = ('{%s}root' % G.TNS) if case['family'] == 'T' else 'doc'
+    xkw = xkw or {}
+    if case['family'] == 'V':
+        m = re.match(r'<p:(\w+)', case['xml'])
+        tag = '{%s}%s' % (G.TNS, m.group(1) if m else 'reg')
+    else:
+        tag = ('{%s}root' % G.TNS) if case['family'] == 'T' else 'doc'
     xsd_element = schema.maps.elements.get(tag)
     if xsd_element is None:
         return
@@ -685,7 +730,7 @@ def component_case(env: Env, case: dict, schema: Any, canon: Callable, reqs: Opt
         makers['et'] = lambda: ET.fromstring(case['xml'])
     ids = Ids()
     try:
-        log = env.rec.record(lambda: xsd_element.iter_errors(makers['lxml']()))
+        log = env.rec.record(lambda: xsd_element.iter_errors(makers['lxml'](), **xkw))
     except RecursionError:
         raise
     except Exception as e:
@@ -697,12 +742,12 @@ def component_case(env: Env, case: dict, schema: Any, canon: Callable, reqs: Opt
     from xmlschema import XMLSchemaValidationError
     for kind, mk in makers.items():
         o: dict[str, Any] = {}
-        o['is_valid'] = outcome(lambda: {'ok': xsd_element.is_valid(mk())})
-        o['iter_errors'] = outcome(lambda: {'ok': [err_key(e) for e in xsd_element.iter_errors(mk())]})
-        o['validate'] = outcome(lambda: {'ok': xsd_element.validate(mk())})
+        o['is_valid'] = outcome(lambda: {'ok': xsd_element.is_valid(mk(), **xkw)})
+        o['iter_errors'] = outcome(lambda: {'ok': [err_key(e) for e in xsd_element.iter_errors(mk(), **xkw)]})
+        o['validate'] = outcome(lambda: {'ok': xsd_element.validate(mk(), **xkw)})
         for m in MODES:
             def call(m=m):
-                r = xsd_element.decode(mk(), validation=m)
+                r = xsd_element.decode(mk(), validation=m, **xkw)
                 if m == 'lax':
                     return {'ok': {'data': canon(r[0]), 'errors': [err_key(e) for e in r[1]]}}
                 return {'ok': {'data': canon(r)}}
@@ -815,6 +860,18 @@ def compare(ctx: Ctx, reqs: list, pend: list, drv: Driver) -> None:
         ctx.traces += 1
         if 'err' in ans:
             ctx.mismatch('driver error', pc, None, ans)
+            continue
+        if what == 'attrs':
+            # Model/AttrDefaults.lean: the same prediction for the validation run and for the decoding run
+            ev_v, ev_d = outs
+            ctx.count('V:model-compared')
+            ctx.count('V:constraints-in-effect:%s' % min(ans['constraints_used'], 4))
+            if ans['events'] != ans['ignoring']:
+                ctx.count('V:verdict-or-errors-depend-on-an-omitted-constraint')
+            if ev_v != ans['events']:
+                ctx.mismatch('value constraints / document state (iter_errors)', pc, ev_v, ans['events'])
+            elif ev_d != ans['events']:
+                ctx.mismatch('value constraints / document state (iter_decode)', pc, ev_d, ans['events'])
             continue
         if what == 'api':
             if not (ans['wf_v'] and ans['wf_d'] and ans['nodata_v']):
@@ -978,12 +1035,32 @@ def gen_cases(ctx: Ctx, n: int) -> list[dict]:
         # keyref / unique on the root) are evaluated by iter_errors but not by iter_decode — outside this property
         if c['family'] == 'N' and not any(f.startswith('ROOT') for f in c['faults']) and ctx.rng.random() < 0.8:
             extra.append(dict(c, path=ctx.rng.choice(['b', 'm', '/doc/m', 'cfg', 'yr', 'nothing'])))
-    return cases + extra
+    # family V: value constraints with a document-level effect (every fault class once per version, then random)
+    vcases = []
+    for v11 in (False, True):
+        for f in sorted(set(GV.V_FAULTS), key=lambda f: f.__name__):
+            for _ in range(8):
+                c = GV.gen_case_V(ctx.rng, v11, only=f)
+                if c['faults']:
+                    break
+            vcases.append(c)
+    for _ in range(max(8, n // 2)):
+        c = GV.gen_case_V(ctx.rng, ctx.rng.random() < 0.5)
+        # the dimension of this family is orthogonal to the source kind: 60 % of the random cases use 4-5 source kinds
+        if ctx.rng.random() < 0.6:
+            c['lite'] = True
+        vcases.append(c)
+    # configuration use_defaults=False on every entry point (defaults are not applied, fixed values are)
+    nodef = []
+    for c in cases + vcases:
+        if ctx.rng.random() < (0.3 if c['family'] == 'V' else 0.06):
+            nodef.append(dict(c, ud=False))
+    return cases + extra + vcases + nodef
 
 
 def kinds_for(case: dict) -> list[str]:
-    if case.get('path'):
-        return ['text', 'path', 'lxml', 'et', 'res']
+    if case.get('path') or not case.get('ud', True) or case.get('lite'):
+        return [k for k in ['text', 'path', 'lxml', 'et', 'res'] if not (case['prefix_dependent'] and k in ET_KINDS)]
     return [k for k in SOURCE_KINDS if not (case['prefix_dependent'] and k in ET_KINDS)]
 
 
@@ -999,6 +1076,10 @@ def witness_cases() -> list[dict]:
          'xml': '<p:root %s version="1"><p:title>x</p:title><p:u>E</p:u></p:root>' % px},
         {'v': '1.0', 'family': 'N', 'style': 'prefix', 'prefix_dependent': False, 'faults': ["C02 bad value yr"],
          'xml': '<doc><yr>99999999999999999999</yr></doc>'},
+        # ignoring_constraints_counterexample: an ID and an omitted IDREF attribute with default="a1"
+        {'v': '1.0', 'family': 'V', 'style': 'prefix', 'prefix_dependent': False,
+         'faults': ['ID value constraint of an omitted IDREF dangling (default a1)'], 'omitted': ['attr:idref:default@child'],
+         'xml': '<p:reg xmlns:p="urn:t"><p:r1 id="b1"/></p:reg>'},
     ]
 
 
@@ -1021,12 +1102,14 @@ def run(ctx: Ctx, driver_ok: bool) -> None:
                 reqs, pend = [], []
         if drv and reqs:
             compare(ctx, reqs, pend, drv)
-        sample = [c for c in cases[4:] if c['family'] in 'TN']
+        sample = [c for c in cases[len(witness_cases()):] if c['family'] in 'TNV' and c.get('ud', True)]
         ctx.rng.shuffle(sample)
         cli_checks(env, drv, sample[:ctx.pick(6, 40)])
         ctx.extra['source_kinds'] = SOURCE_KINDS
         ctx.extra['entry_points_per_source'] = len(entry_points(env.schemas['T', False], canon_data))
-        ctx.extra['fault_classes'] = G.FAULT_NAMES
+        ctx.extra['fault_classes'] = G.FAULT_NAMES + ['V:' + x for x in GV.V_FAULT_NAMES]
+        ctx.extra['value_constraint_carriers'] = {k: ['%s:%s:%s=%s' % (a or 'text', kd, how, val) for a, kd, how, val in v]
+                                                 for k, v in GV.CONSTRAINTS.items()}
     finally:
         env.close()
 
